@@ -100,6 +100,23 @@ func runC15(c *core.Ctx) {
 				return core.Continue
 			}, nil)
 			c.Check(t == nil, "R1", "request-loop/drains-body", p.InstrPos(deliver), "the previous body is drained / closed before the next request is parsed", "the request loop parses the next request without draining or closing the previous body: unread body bytes are parsed as the next request", p.PathString(path, t)...)
+			// the buffered reader feeding ReadRequest lives for the whole connection: it is not re-created per request
+			c.Instance("R1")
+			perReq := false
+			core.AllInstrs(loopFn, func(x ssa.Instruction) {
+				if !core.IsPkgFunc(x, "bufio", "NewReader") && !core.IsPkgFunc(x, "bufio", "NewReaderSize") {
+					return
+				}
+				if t, _ := core.Search(x, nil, func(y ssa.Instruction) core.Action {
+					if y == x {
+						return core.Target
+					}
+					return core.Continue
+				}, nil); t != nil {
+					perReq = true
+				}
+			})
+			c.Check(!perReq, "R1", "request-loop/one-buffered-reader", p.InstrPos(readReq), "one buffered reader per connection, created outside the request loop", "the buffered reader is re-created for every request: bytes it read ahead (a pipelined request in the same transport read) are thrown away")
 			// exits: every normal return after the first ReadRequest is on the request.Close side
 			c.Instance("R1")
 			closeEdge := map[edgeKey]bool{}
@@ -416,6 +433,11 @@ func runC15(c *core.Ctx) {
 		c.Check(fin, "R3", "adapter/deferred-finish", p.InstrPos(serve), "the response is finished by a deferred call registered before ServeHTTP (runs on panic too)", "the adapter does not finish the response (Close) in a deferred call registered before ServeHTTP: a panicking or early-returning handler leaves the response unfinished / the pooled writer leaked")
 	}
 	importObligations(c, runC06, "R4", func(o *core.Obligation) bool { return strings.Contains(o.Key, "http-close-after-delivery") })
+	// responses go through the channel's write path (queue / lock / flush), never straight to the transport
+	c.Rule("R5", "the response is written through the channel's write path, not straight to the transport (shared with C01-R3)", 1)
+	importObligations(c, runC01, "R5", func(o *core.Obligation) bool {
+		return o.Rule == "R3" && (strings.Contains(o.Key, "transport-as-writer") || strings.Contains(o.Key, "codec/xhttp") || strings.Contains(o.Key, "enqueuer/"))
+	})
 	// the close request is issued only under request.Close
 	if loopFn != nil {
 		hc := lookupNamedT(p.TPkg(""), "HandlerContext")
